@@ -554,8 +554,6 @@ impl Graph {
                     .is_some()
             })
             .collect::<Vec<_>>();
-        // Don't remove the graph root (only happens when there are no leaves)
-        visit_stack.push(graph.root);
         let mut reach_accept = visit_stack.iter().cloned().collect::<HashSet<_>>();
         while let Some(state) = visit_stack.pop() {
             // Traverse the graph backwards to include any parents of visited nodes in the set of
@@ -580,6 +578,10 @@ impl Graph {
         }
 
         // And then remove dead states from the graph entirely.
+        // Don't remove the graph root (only happens when no leaf can ever match). It is added
+        // only now, so that edges leading back into a dead root have been pruned like any other
+        // dead end.
+        reach_accept.insert(graph.root);
         graph.retain_states(&reach_accept, true);
 
         // Now we can deduplicate states based on their edges.
